@@ -70,6 +70,10 @@ def inst_probe(inst, g):
 def run_history(hist, adds, vocab, base):
     insts = []
     steps = []
+    # ONE list object per kind of caller, reused and edited in place: by every "acts" activation, resp. by
+    # every "conss" construction.  (Kept apart: an ACTIVE activation holds a reference to its caller's list,
+    # so editing that very list while it is active is the caller changing the additions -- not tested here.)
+    shared_act, shared_cons = [], []
     for op in hist:
         extra = None
         try:
@@ -85,6 +89,12 @@ def run_history(hist, adds, vocab, base):
             elif op[0] == "cons":
                 a = adds[op[1]]
                 insts.append(fml.FicklingMLUnpickler(io.BytesIO(b"N."), also_allow=None if a is None else list(a)))
+            elif op[0] == "acts":
+                shared_act[:] = adds[op[1]] or []
+                fhook.activate_safe_ml_environment(also_allow=shared_act)
+            elif op[0] == "conss":
+                shared_cons[:] = adds[op[1]] or []
+                insts.append(fml.FicklingMLUnpickler(io.BytesIO(b"N."), also_allow=shared_cons))
             elif op[0] == "probe":
                 extra = env_probe(vocab[op[1]])
             elif op[0] == "iprobe":
